@@ -48,6 +48,11 @@ CORPUS = [
     "S 1 -;A15.0:0 s0:A10.0:1 s0:A20.0:0 t:25.0 t:1000.0",
     "S 1 -;X2 s0:A10.0:1 s0:A10.0:0 t:10.0 t:1000.0",
     "S 2 R60000:0 s0:R60000:0 t:59.999999999 t:60.0 t:3600.0 t:3660.0 t:90000.0",
+    # the head timer is cancelled in the window between the time-out of the timer thread's wait and its re-lock: the next
+    # timer must wait for its own expiry (SIGHUP arriving in the instant the refresh timer expires)
+    "S 1 -;- s0:A10.0:0 s0:A3600.0:1 x0:10.0:K1 t:20.0 t:3599.999999999 t:3600.0 t:4000.0",
+    "S 2 -;-;- s0:A10.0:0 s1:A10.0:1 s0:A50.500000000:2 x1:10.0:K2 t:11.0 x0:50.500000000:K0 t:60.0",
+    "S 1 R5000:0 s0:R1000:0 x0:1.0:K0 t:2.0 t:6.0 x0:7.0:X2 t:100.0",
 ]
 
 # ----------------------------------------------------------------------------------------------------------
@@ -107,13 +112,23 @@ def gen_serial(ctx):
     ncb = len(progs)
     now = (0, 0)
     ops = []
+    expiries = []
     for _ in range(rng.randrange(6, 40)):
         r = rng.random()
         th = rng.randrange(nth)
         if r < 0.45:
             ops.append("s%d:%s" % (th, gen_hop_set(rng, list(range(ncb)), now[0])))
-        elif r < 0.62:
+            m = re.match(r"A(\d+)\.(\d+):", ops[-1].split(":", 1)[1])
+            if m:
+                expiries.append((int(m.group(1)), int(m.group(2))))
+        elif r < 0.56:
             ops.append("c%d:%s" % (th, gen_cancel(rng)))
+        elif r < 0.64:
+            # a cancel in the window between the wait's time-out and the re-lock, at an expiry that was set (or near)
+            fut = [e for e in expiries if e[0] * NS + e[1] >= now[0] * NS + now[1]]
+            t_x = rng.choice(fut) if fut and rng.random() < 0.8 else (now[0] + rng.choice([0, 1, 2]), 0)
+            now = t_x
+            ops.append("x%d:%s:%s" % (th, fmt_ts(t_x), gen_cancel(rng)))
         else:
             q = rng.random()
             if q < 0.70:
@@ -211,6 +226,10 @@ def parse_case(line):
             ops.append(("t", None, (int(s), int(n))))
         elif tok[0] == "r":
             ops.append(("r", int(tok[1:]), None))
+        elif tok[0] == "x":
+            th, t, hop = tok[1:].split(":", 2)
+            s_, n = t.split(".")
+            ops.append(("x", int(th), ((int(s_), int(n)), parse_hop(hop))))
         else:
             th, rest = tok[1:].split(":", 1)
             ops.append((tok[0], int(th), parse_hop(rest)))
@@ -291,6 +310,9 @@ def property_holds(line, out):
 
         if kind == "t":
             now = h
+        elif kind == "x":                 # clock reading, then a cancel made before the timer thread rescans
+            now, h = h
+            kind = "c"
         elif kind == "h":
             held.append(new_timer(h, True))
         expect_top = kind in ("s", "c")
@@ -508,17 +530,22 @@ def read_facts():
 
 
 def stir_steps(ctx):
-    """clock steps aimed at the stir service: around the short enhanced intervals, then several maximum-length
-    intervals (exactly at, just before and just after the expiry incl. the stagger), jumps over more than one"""
+    """clock steps aimed at the stir service: around the short enhanced intervals, then maximum-length intervals
+    (exactly at, just before and just after the expiry incl. the stagger, jumps over several), then enough full-length
+    steps that EVERY initial condition sees at least 40 stirs after the maximum interval has been reached (15 doublings
+    from a first start): whatever state is kept behind the interval has time to go wrong (virtual time is free)"""
     rng = ctx.rng
     facts = read_facts()
     mx = facts["stir_max_secs"] * 1000
     steps, t = [], 0
-    for _ in range(24):
+    for _ in range(16):
         t += rng.choice([1000, 2000, 2500, 4000, 8000, 16500, 33000, 70000])
         steps.append("t %d" % t)
-    for _ in range(40 if ctx.thorough else 14):
+    for _ in range(12):
         t += rng.choice([mx - 1, mx, mx + 1023, mx + 1024, mx // 2, 2 * mx + 5000, 3600000])
+        steps.append("t %d" % t)
+    for _ in range(80 if ctx.thorough else 58):              # one stir per step: 15 to reach the maximum + 40 and more
+        t += mx + 1023 + rng.choice([1, 1, 1000, mx // 3, 5 * mx])
         steps.append("t %d" % t)
     return steps
 
@@ -552,6 +579,13 @@ def check_periodic(ctx, exe, steps=None, seed_bytes=None, tag="periodic"):
         if l.startswith("!"):
             return "periodic harness (%s): %s" % (where, l), steps, lines
     if rc != 0 or not lines or not lines[-1].startswith("END"):
+        san = [l.strip() for l in (err or "").splitlines() if "runtime error:" in l or "ERROR: AddressSanitizer" in l]
+        nst = sum(1 for l in lines if l.startswith("ARM random"))
+        last = [l for l in lines if l.startswith("OP")][-1:] or ["start"]
+        if san:
+            return ("the daemon's periodic services abort (%s) after %d PRNG stir(s), at %r: %s — undefined behaviour in a "
+                    "service callback on the timer thread (in munged without a sanitizer: whatever the wrapped value does)"
+                    % (where, nst, last[0], san[0][:300])), steps, lines
         return "periodic harness (%s) failed rc=%d: %s" % (where, rc, (err or "")[-600:]), steps, lines
     init_rv = [int(l.split()[1]) for l in lines if l.startswith("INIT")]
     lines = [l for l in lines if not l.startswith("INIT")]
@@ -577,6 +611,7 @@ def check_periodic(ctx, exe, steps=None, seed_bytes=None, tag="periodic"):
     counts = {"replay": 0, "gids": 0, "random": 0}
     stir = None
     corr = None
+    at_max = 0
     now = 0
     rp, gi = facts["replay_purge_secs"] * 1000, facts["group_update_secs"] * 1000
     mx, jit = facts["stir_max_secs"], facts["stir_jitter_max"]
@@ -625,6 +660,7 @@ def check_periodic(ctx, exe, steps=None, seed_bytes=None, tag="periodic"):
                                 "the recurrence clause itself holds on this log"
                                 % (s2, want, where, "none: this is the timer random_init sets" if stir is None else "%d s" % stir))
                     stir = s2
+                    at_max += 1 if s2 == mx else 0
                 elif gm != em:
                     return "service %s armed +%d ms, expected +%d ms" % (svc, gm, em), steps, lines
             if g:
@@ -634,7 +670,7 @@ def check_periodic(ctx, exe, steps=None, seed_bytes=None, tag="periodic"):
         if pend.get(svc) is None or pend[svc] <= final:
             return "service %s has no timer pending beyond the final clock reading (%s)" % (svc, where), steps, lines
     ctx.cov[tag] = dict(counts, virtual_hours=round(final / 3600000.0, 1), steps=len(steps), seed_file=where,
-                        stir_fully_seeded=full, last_stir_interval_s=stir)
+                        stir_fully_seeded=full, last_stir_interval_s=stir, stirs_at_maximum=at_max)
     return corr, steps, lines
 
 
@@ -659,6 +695,8 @@ def gallina_case(line):
     for kind, th, h in ops:
         if kind == "t":
             dl.append("DClock (%s, %s)" % (z(h[0]), z(h[1])))
+        elif kind == "x":
+            dl.append("DClockThen (%s, %s) (%s)" % (z(h[0][0]), z(h[0][1]), hop(h[1])))
         elif kind in "sc":
             dl.append("DOp (%s)" % hop(h))
         elif kind == "h":
@@ -863,9 +901,10 @@ def run(ctx):
         conds = [(None, rsteps, "periodic")]
         if not replay_obj:
             conds += [(facts["random_seed_bytes"], stir_steps(ctx), "periodic_seeded"), (100, stir_steps(ctx), "periodic_short_seed"),
-                      (edge, stir_steps(ctx), "periodic_seed_exact"), (edge - 1, stir_steps(ctx), "periodic_seed_one_short")]
+                      (edge, stir_steps(ctx), "periodic_seed_exact"), (edge - 1, stir_steps(ctx), "periodic_seed_one_short"),
+                      (None, stir_steps(ctx), "periodic_first_start_long")]
             if ctx.thorough:
-                conds += [(None, stir_steps(ctx), "periodic_first_start_long"), (4000, stir_steps(ctx), "periodic_seed_oversize")]
+                conds += [(4000, stir_steps(ctx), "periodic_seed_oversize")]
         elif "seed_bytes" in replay_obj:
             conds = [(replay_obj["seed_bytes"], rsteps, "periodic")]
         for sb, st, tag in conds:
